@@ -42,7 +42,12 @@ def stress_case(chk, s):
     vals = []
     for perm in itertools.permutations(s):
         p = Profile.round(radius=1, longitudinal_stress=perm[0], altitudinal_stress=perm[1], latitudinal_stress=perm[2])
-        vals.append((perm, float(p.equivalent_stress), float(p.hydrostatic_stress)))
+        try:
+            vals.append((perm, float(p.equivalent_stress), float(p.hydrostatic_stress)))
+        except Exception as e:      # noqa  (e.g. a non-finite result)
+            chk.fail('equivalent_stress', f"stresses {perm}: reading equivalent / hydrostatic stress raises {type(e).__name__}: {str(e)[:100]}; von Mises value is {vm(*s)}",
+                     {'kind': 'stress', 'stresses': list(perm)})
+            return False
     ref = vm(*s)
     for perm, ev, hv in vals:
         if not close(ev, ref):
@@ -96,10 +101,18 @@ def shape_case(chk, kind, a, b, r):
         p = Profile.box(height=a, width=b, corner_radius=r * min(a, b) / 2)
     else:
         p = Profile.diamond(height=a, width=b, corner_radius=r * min(a, b) / 4)
+    data = {'kind': 'shape', 'shape': kind, 'a': a, 'b': b, 'r': r}
+    if kind in ('box', 'round', 'offbox', 'tee'):
+        # for every state: the same profile object after its cross-section was replaced by another one and the remembered values were re-evaluated
+        # (the values above were all read - and remembered - with the first section)
+        _ = (p.equivalent_rectangle, float(p.equivalent_height), float(p.equivalent_width), float(p.equivalent_radius), p.width, p.height)
+        from shapely.affinity import scale as _scale
+        p.cross_section = _scale(p.cross_section, 1.7, 0.6, origin=(0, 0))
+        p.reevaluate_cache()
+        data = dict(data, history="cross_section replaced (stretched 1.7 x 0.6), then reevaluate_cache()")
     A = p.cross_section.area
     h, w, rr = float(p.equivalent_height), float(p.equivalent_width), float(p.equivalent_radius)
     er = p.equivalent_rectangle
-    data = {'kind': 'shape', 'shape': kind, 'a': a, 'b': b, 'r': r}
     if not (close(h * w, A) and close(w / h, p.width / p.height) and close(math.pi * rr ** 2, A)):
         chk.fail('equivalent_rectangle', f"{kind}: h_eq*w_eq={h * w}, area={A}, ratio {w / h} vs {p.width / p.height}", data)
         return False
@@ -229,7 +242,10 @@ def oracle(chk, n):
     seen = set()
     ev = 0
     special = [(1.0, 2.0, 4.0), (2.0, 4.0, 1.0), (3.0, 0.0, 0.0), (0.0, -3.0, 0.0), (5.0, 5.0, 5.0), (0.0, 0.0, 0.0),
-               (-7.5, 2.25, 1e3)]
+               (-7.5, 2.25, 1e3),
+               # every state: a large pressure with a small deviator on top, hydrostatic states whose squares are not representable
+               (1e9 + 1.0, 1e9, 1e9), (-2.5e8, -2.5e8, -2.5e8 + 3.0), (0.1, 0.1, 0.1), (1e6 / 3, 1e6 / 3, 1e6 / 3), (-7e7 / 9, -7e7 / 9, -7e7 / 9),
+               (123456789.123, 123456789.123, 123456790.123)]
     for i in range(n // 2):
         s = special[i] if i < len(special) else tuple(rng.choice([rng.uniform(-500, 500), rng.uniform(-1, 1) * 10 ** rng.randint(-3, 8), 0.0])
                                                         for _ in range(3))
